@@ -3,9 +3,9 @@ package orda
 // C09: transactions are all-or-nothing, locally and on every replica.
 
 import (
-	"encoding/json"
 	"errors"
 
+	"github.com/orda-io/orda/client/pkg/constants"
 	"github.com/orda-io/orda/client/pkg/model"
 	"github.com/orda-io/orda/client/pkg/operations"
 	"github.com/orda-io/orda/client/pkg/vf"
@@ -130,8 +130,10 @@ func VF_C09_Remote() {
 	vf.Assert(len(ops) == 3, "source produced header + 2 operations")
 	// mutate: header count arbitrary, unit possibly truncated
 	n := vf.I32("numOfOps")
-	body, _ := json.Marshal(&operations.TransactionBody{Tag: "unit", NumOfOps: n})
-	hdr := &model.Operation{ID: ops[0].ID, OpType: ops[0].OpType, Body: body}
+	hop := operations.NewTransactionOperation("unit")
+	hop.SetNumOfOps(int(n))
+	hop.SetID(ops[0].ID)
+	hdr := hop.ToModelOperation()
 	keep := 1 + vf.Choice("keep", 3) // 1..3 operations delivered
 	unit := append([]*model.Operation{hdr}, ops[1:keep]...)
 	vf.Tag("keep", keep)
@@ -161,4 +163,49 @@ func VF_C09_Remote() {
 		vf.Assert(rerr != nil, "C09 incomplete or mis-counted unit is reported as an error")
 	}
 	vf.Assert(listInv(dst.snapshot()), "C09 state after delivery satisfies the invariant")
+}
+
+// VF_C09_LongHistory: size thresholds named in the code are boundary inputs.
+// The client keeps its pending and rollback records in buffers created with
+// constants.OperationBufferSize; a history just past that size (local calls, or
+// operations received from another replica), followed by a failing transaction,
+// must roll back to exactly the state before it, and the next call continues the
+// numbering.  The constant is read from the code under check.
+func VF_C09_LongHistory() {
+	n := constants.OperationBufferSize + 5
+	remote := vf.Choice("history", 2) == 1
+	vf.Tag("remote", remote)
+	c := vfNewCounter()
+	want := int32(0)
+	if remote {
+		rRaw, _ := newCounter(vfBase("k", model.TypeOfDatatype_COUNTER, "BBBBBBBBBBBBBBBB"), nil, nil)
+		r := rRaw.(*counter)
+		for i := 0; i < n; i++ {
+			_, _ = r.IncreaseBy(1)
+		}
+		_, e := c.ReceiveRemoteModelOperations(r.CreatePushPullPack().Operations, false)
+		vf.Assert(e == nil, "C09 remote operations are applied")
+		want = int32(n)
+	} else {
+		for i := 0; i < n; i++ {
+			_, _ = c.IncreaseBy(1)
+		}
+		want = int32(n)
+	}
+	vf.Assert(c.Get() == want, "C03 the counter holds the sum")
+	n0, seq0 := pendingOps(c)
+	id0 := c.GetOpID().Clone()
+	_ = c.Transaction("fails", func(tx CounterInTx) error {
+		_, _ = tx.IncreaseBy(1000)
+		return errors.New("body failed")
+	})
+	vf.Reach("rolled-back")
+	vf.Assert(c.Get() == want, "C09 a failed transaction after a long history leaves the readable state unchanged")
+	n1, seq1 := pendingOps(c)
+	vf.Assert(n1 == n0 && seq1 == seq0, "C09 failed transaction queues nothing")
+	vf.Assert(c.GetOpID().Seq == id0.Seq && c.GetOpID().Lamport == id0.Lamport, "C09/C15 failed transaction leaves the identifiers unchanged")
+	_, err := c.IncreaseBy(7)
+	vf.Assert(err == nil && c.Get() == want+7, "C09 datatype usable after the transaction")
+	n2, seq2 := pendingOps(c)
+	vf.Assert(n2 == n1+1 && seq2 == id0.Seq+1, "C09/C15 next operation continues the numbering")
 }
